@@ -1,6 +1,7 @@
 #!/usr/bin/env python3
 """probetest.py <dir with p*.diff> <check ids...> : apply each probe patch to /repo in turn, run the checks, revert; print a table."""
 import glob, os, subprocess, sys
+import os as _os; _os.environ["VERIF_NO_EVIDENCE"] = "1"   # never let a run against a modified tree rewrite evidence/
 d = os.path.abspath(sys.argv[1]); ids = sys.argv[2:]
 rows = []
 for p in sorted(glob.glob(os.path.join(d, "p*.diff"))):
